@@ -457,4 +457,45 @@ theorem segInv_read {st : SegSt} {done : List (List (Option Val))} {cur : List (
   refine ⟨rd, by rw [hbuf]; exact hinit, ?_⟩
   exact readMany_good hl ns rd g (by intro n hn; rw [hlen]; exact hns n hn)
 
+/-! ### block bookkeeping of AppendWipToSegfile -/
+
+/-- block number = position -/
+def enumBlocks (l : List Nat) : List (Nat × Nat) := l.zipIdx.map (fun p => (p.2, p.1))
+
+theorem enumBlocks_snoc (l : List Nat) (n : Nat) : enumBlocks (l ++ [n]) = enumBlocks l ++ [(l.length, n)] := by
+  simp [enumBlocks, List.zipIdx_append]
+
+theorem enumBlocks_getElem? (l : List Nat) (b : Nat) : (enumBlocks l)[b]? = (l[b]?).map (fun n => (b, n)) := by
+  simp [enumBlocks]
+  cases l[b]? <;> simp
+
+structure BlkInv (st : BlkSt) (sp : List Nat × Nat) : Prop where
+  bsu : st.bsu = enumBlocks sp.1
+  nb : st.numBlocks = sp.1.length
+  recs : st.blkRec = sp.2
+
+theorem blk_step (st : BlkSt) (sp : List Nat × Nat) (op : BlkOp) (inv : BlkInv st sp) :
+    BlkInv (st.opWith true op) (cutStep sp op) := by
+  cases op with
+  | ev k => exact ⟨inv.bsu, inv.nb, by show st.blkRec + 1 = sp.2 + 1; rw [inv.recs]⟩
+  | flush =>
+    by_cases h0 : st.blkRec = 0
+    · have h1 : sp.2 = 0 := by rw [← inv.recs]; exact h0
+      simp only [BlkSt.opWith, BlkSt.flushWith, cutStep, h0, h1, if_true]
+      exact inv
+    · have h1 : ¬ sp.2 = 0 := by rw [← inv.recs]; exact h0
+      simp only [BlkSt.opWith, BlkSt.flushWith, cutStep, h0, h1, if_false]
+      refine ⟨?_, ?_, rfl⟩
+      · simp [inv.bsu, inv.nb, inv.recs, enumBlocks_snoc]
+      · simp [inv.nb]
+
+theorem blk_run (ops : List BlkOp) : ∀ (st : BlkSt) (sp : List Nat × Nat), BlkInv st sp →
+    BlkInv (ops.foldl (BlkSt.opWith true) st) (ops.foldl cutStep sp) := by
+  induction ops with
+  | nil => intro st sp inv; exact inv
+  | cons op t ih => intro st sp inv; exact ih _ _ (blk_step st sp op inv)
+
+theorem runBlk_inv (ops : List BlkOp) : BlkInv (runBlk ops) (cutBlocks ops) :=
+  blk_run ops {} ([], 0) ⟨rfl, rfl, rfl⟩
+
 end SigModel.Lemmas.C01
